@@ -15,7 +15,7 @@ func init() {
 	core.Register(&core.Prop{
 		ID:    "C19",
 		Level: "exploration",
-		Rule: "EXHAUSTIVE quadruples (object-left, object-right, tag-left, tag-right) of distinct, mutually non-prefixing strings of length 1..2 over the alphabet {<, >, $} (quick) / {<, >, [, ], $, @} (thorough), PRNG quadruples of length 1..4 over a 14-symbol punctuation alphabet with the regexp metacharacters ( ) * + ? . ^ \\ | ], and each of the 16 subsets of positions left empty. For each quadruple, generated templates (objects, tags, blocks, loops, hyphens on every side, raw/comment, multi-line tags, planted errors) are re-spelled with the custom delimiters via the frozen reference tokenizer and rendered on Engine.Delims(q); the result must equal the original on a default engine (bytes, or failure with the same LineNumber). A case is judged only if the re-spelled source tokenises under q into the same tokens. The default delimiter strings must pass through as text under q. Templates in which an application tag expands the objects inside its own argument (render.Context.ExpandTagArg) are re-spelled inside the argument as well and compared the same way (every fifth exhaustive quadruple, every eighth random one, every empty-position subset). Non-trivial = the quadruple differs from the defaults; distinct = distinct (quadruple, template).",
+		Rule: "EXHAUSTIVE quadruples (object-left, object-right, tag-left, tag-right) of distinct, mutually non-prefixing strings of length 1..2 over the alphabet {<, >, $} (quick) / {<, >, [, ], $, @} (thorough), PRNG quadruples of length 1..4 over a 14-symbol punctuation alphabet with the regexp metacharacters ( ) * + ? . ^ \\ | ], and each of the 16 subsets of positions left empty. For each quadruple, generated templates (objects, tags, blocks, loops, hyphens on every side, raw/comment, multi-line tags, planted errors) are re-spelled with the custom delimiters via the frozen reference tokenizer and rendered on Engine.Delims(q); the result must equal the original on a default engine (bytes, or failure with the same LineNumber). A case is judged only if the re-spelled source tokenises under q into the same tokens. Partials reached through include are registered on each engine in its own spelling. The default delimiter strings must pass through as text under q. Templates in which an application tag expands the objects inside its own argument (render.Context.ExpandTagArg) are re-spelled inside the argument as well and compared the same way (every fifth exhaustive quadruple, every eighth random one, every empty-position subset). Non-trivial = the quadruple differs from the defaults; distinct = distinct (quadruple, template).",
 		Exhaustive: func(string) bool { return true },
 		Assumptions: []string{
 			"the hyphen is excluded from the delimiter alphabet (it would make the whitespace-control marker ambiguous)",
@@ -124,7 +124,12 @@ func validQuad(q [4]string) bool {
 	return true
 }
 
+// c19Partial is included by some of the fixed templates (registered with ParseTemplateAndCache on both engines).
+const c19Partial = "[part n={{ n }} v={{ v }}{% if t %} t{% endif %} {{- s -}} ]\nplain line\n"
+
 var c19Fixed = []string{
+	"a {% assign v = 5 %}{% include 'c19part.html' %} b {% for i in (1..2) %}{% assign v = i %}{% include \"c19part.html\" %}{% endfor %}",
+	"{% capture v %}cap{% endcapture %}x {%- include 'c19part.html' -%} y",
 	"a {{ n }} b {%- if t -%} yes {%- endif -%} c",
 	"{% for i in (1..3) -%} {{ i }} {%- endfor %}|{{- s -}}|",
 	"x {%- raw -%} {{ raw }} {% endraw %} y{% comment %} {{ c }} {% endcomment %}z",
@@ -186,6 +191,10 @@ func c19SameShape(a string, qa [4]string, b string, qb [4]string, depth int) boo
 func runC19(c *core.Ctx) {
 	def := liquid.NewEngine()
 	RegisterCustom(def)
+	if _, pr := core.ParseCache(def, c19Partial, "c19part.html", 1); !pr.OK() {
+		c.Violate("harness|partial", "the partial does not parse on a default engine", map[string]any{"observed": pr.Brief()})
+		return
+	}
 	// ---- objects inside the argument of an application tag ------------------------------------------------
 	tagArg := func(q, engQ [4]string, kind string) {
 		e := liquid.NewEngine().Delims(engQ[0], engQ[1], engQ[2], engQ[3])
@@ -234,6 +243,19 @@ func runC19(c *core.Ctx) {
 		b := gen.CanonEnv(env)
 		want := core.Run(def, src, b)
 		e := liquid.NewEngine().Delims(engQ[0], engQ[1], engQ[2], engQ[3])
+		if strings.Contains(src, "c19part.html") {
+			// the partial is a template of the same engine: written with the same delimiters
+			prs, ptoks := respell(c19Partial, q)
+			if !sameTokens(ptoks, c19Tokens(prs, q)) {
+				c.Skip("re-spelled partial collides with the delimiters")
+				return
+			}
+			if _, pr := core.ParseCache(e, prs, "c19part.html", 1); !pr.OK() {
+				c.Violate(kind+"|partial-registration", "a partial written with the custom delimiters was rejected by ParseTemplateAndCache", map[string]any{"delims": fmt.Sprintf("%q", engQ), "partial": prs, "observed": pr.Brief()})
+				return
+			}
+			c.Obs("cases_with_included_partial", 1)
+		}
 		got := core.Run(e, rs, b)
 		c.Eval(2)
 		c.Obs("respelled_cases", 1)
